@@ -14,7 +14,9 @@ import (
 // B2: provenance — strip value-preserving wrappers.
 
 // strip removes conversions that preserve the value's identity.
-func strip(v ssa.Value) ssa.Value {
+func strip(v ssa.Value) ssa.Value { return stripV(v, nil) }
+
+func stripV(v ssa.Value, visiting map[*ssa.Phi]bool) ssa.Value {
 	for {
 		switch x := v.(type) {
 		case *ssa.ChangeType:
@@ -32,10 +34,17 @@ func strip(v ssa.Value) ssa.Value {
 			}
 		case *ssa.Phi:
 			// a phi whose inputs are all the same value
+			if visiting[x] {
+				return v
+			}
+			if visiting == nil {
+				visiting = map[*ssa.Phi]bool{}
+			}
+			visiting[x] = true
 			var one ssa.Value
 			same := true
 			for _, e := range x.Edges {
-				e = strip(e)
+				e = stripV(e, visiting)
 				if e == x {
 					continue
 				}
@@ -45,7 +54,11 @@ func strip(v ssa.Value) ssa.Value {
 					same = false
 				}
 			}
+			delete(visiting, x)
 			if same && one != nil {
+				if _, isPhi := one.(*ssa.Phi); isPhi {
+					return v
+				}
 				v = one
 			} else {
 				return v
@@ -189,7 +202,7 @@ func isInvokeOf(v ssa.Value, method string, idx int) (ssa.CallInstruction, bool)
 		return c, true
 	}
 	// static method call on concrete receiver with that name
-	if f := staticCallee(c); f != nil && f.Name() == method && f.Signature.Recv() != nil {
+	if f := staticCallee(c); f != nil && fnBase(f) == method && f.Signature.Recv() != nil {
 		return c, true
 	}
 	return nil, false
@@ -582,4 +595,54 @@ func (p *Prog) resultNilness(f *ssa.Function, idx int, depth int) nilness {
 		return nnUnknown
 	}
 	return res
+}
+
+// ---------------------------------------------------------------------------------------------
+// truth conditions of a boolean value (for && / || lowered to phis)
+
+// truthAlts returns a disjunction of conjunctions of guards under which the boolean value v,
+// evaluated in block b, is true. ok=false when v's structure is not understood.
+func truthAlts(v ssa.Value, depth int) (alts [][]Guard, ok bool) {
+	if depth > 6 {
+		return nil, false
+	}
+	if c, isC := constBool(v); isC {
+		if c {
+			return [][]Guard{{}}, true
+		}
+		return nil, true
+	}
+	switch x := v.(type) {
+	case *ssa.UnOp:
+		if x.Op == token.NOT {
+			// !y is true when y is false: only understood for atoms
+			return [][]Guard{{Guard{Cond: x.X, Pol: false}}}, true
+		}
+	case *ssa.Phi:
+		for i, e := range x.Edges {
+			pb := x.Block().Preds[i]
+			sub, ok := truthAlts(e, depth+1)
+			if !ok {
+				return nil, false
+			}
+			if len(sub) == 0 {
+				continue
+			}
+			// facts of the edge pb -> x.Block()
+			var edge []Guard
+			edge = append(edge, guardsOf(pb)...)
+			if len(pb.Instrs) > 0 {
+				if iff, isIf := pb.Instrs[len(pb.Instrs)-1].(*ssa.If); isIf && pb.Succs[0] != pb.Succs[1] {
+					pol := pb.Succs[0] == x.Block()
+					edge = append(edge, flattenCond(iff.Cond, pol, iff)...)
+				}
+			}
+			for _, s := range sub {
+				alt := append(append([]Guard{}, edge...), s...)
+				alts = append(alts, alt)
+			}
+		}
+		return alts, true
+	}
+	return [][]Guard{{Guard{Cond: v, Pol: true}}}, true
 }
